@@ -21,7 +21,7 @@ CHECKS = {
     "C10": {"harnesses": [("harness.runs", "C10_RunnerBasics")]},
     "C11": {"harnesses": [("harness.runs", "C11_RunnerBasics")]},
     "C12": {"harnesses": [("harness.fundamentals", "C12_LogReturns"), ("harness.fundamentals", "C12_Paths"),
-                          ("harness.fundamentals", "C12_ConfiguredParameters")]},
+                          ("harness.fundamentals", "C12_ConfiguredParameters"), ("harness.fundamentals", "C12_LateStart")]},
     "C13": {"harnesses": [("harness.events", "C13_HookDispatch"), ("harness.events", "C13_HookValidation")]},
     "C14": {"harnesses": [("harness.events", "C14_FundamentalShock"), ("harness.events", "C14_MistakeShock")]},
     "C15": {"harnesses": [("harness.events", "C15_LimitRuleFn"), ("harness.events", "C15_LimitRuleRun")]},
